@@ -198,6 +198,9 @@ fn gen_expr(r: &mut Rng, item: &MVal, root: &MVal, cfg: &GenCfg, depth: usize, a
 }
 
 pub fn gen_path(r: &mut Rng, doc: &MVal, cfg: &GenCfg, filters: bool) -> MPath {
+    // a filter is evaluated once per item and may walk from the root each time: quadratic on wide documents,
+    // for the library and the model alike; keep filters to documents where that is cheap
+    let filters = filters && doc.node_count() <= 2000;
     if filters && r.chance(1, 12) {
         return MPath { steps: vec![], predicate: Some(gen_expr(r, doc, doc, cfg, 0, false)) };
     }
